@@ -98,6 +98,7 @@ def stepJ (c : Cfg Float) (s : State Float) (op : Json) : R (State Float × Json
   let tag ← strAt a 0
   match tag with
   | "gate" => pure (s, Json.null)
+  | "cfg" => pure (s, Json.null)
   | "obs" =>
     let r := observe c s (← itemsOf (← arrAt a 1)) (← optInt (← arrAt a 2))
     pure (r.1, jObj [("k_in", jNat r.2.kIn), ("k_used", jNat r.2.kUsed), ("pairs_updated", jNat r.2.pairsUpdated)])
@@ -132,6 +133,9 @@ def handle (j : Json) : R Json := do
     -- ["gate", b]: graph.enabled is switched for the following operations
     if let some (Json.str "gate") := (op.getArrVal? 0).toOption then
       c := { c with enabled := ← (← op.getArrVal? 1).getBool? }
+    -- ["cfg", {...}]: the settings object was edited in place; these are the current values
+    if let some (Json.str "cfg") := (op.getArrVal? 0).toOption then
+      c ← cfgOf (← op.getArrVal? 1)
     let (s', o) ← stepJ c s op
     s := s'
     out := out.push (jObj [("r", o), ("s", jState s')])
@@ -175,6 +179,13 @@ def handleMon (j : Json) : R Json := do
       let items ← itemsOf (← fld st "items")
       pure (obsSpecB sameEdge c items pre post
               ⟨← fldNat st "k_in", ← fldNat st "k_used", ← fldNat st "pairs_updated"⟩))
+    pure (firstFail steps)
+  | "obstop" =>
+    let steps ← (← fldArr j "steps").toList.mapM (fun st => do
+      let pre ← edgesOfJ (← fld st "pre")
+      let post ← edgesOfJ (← fld st "post")
+      let items ← itemsOf (← fld st "items")
+      pure (obsTopB sameEdge c items pre post))
     pure (firstFail steps)
   | _ => throw s!"bad monitor kind {kind}"
 
